@@ -52,6 +52,11 @@ def load_property(pid):
     name = 'props.' + os.path.basename(hits[0])[:-3]
     mod = importlib.import_module(name)
     import pydl
+    try:
+        from astropy import log as _alog
+        _alog.setLevel('ERROR')
+    except Exception:
+        pass
     where = os.path.realpath(os.path.dirname(pydl.__file__))
     if where != os.path.join(REPO, 'pydl'):
         raise HarnessError('pydl imported from %s, expected %s' % (where, REPO))
